@@ -43,6 +43,19 @@ class Scenario:
                 R["violation"] = None
             except Violation as v:
                 R["violation"] = v.to_json()
+            except (HarnessError, KeyboardInterrupt, SystemExit):
+                raise
+            except BaseException as e:  # noqa
+                from ..kernel import RunTimeout, exc_site, exception_origin
+
+                if isinstance(e, (RunTimeout, MemoryError, RecursionError)) or exception_origin(e) != "library":
+                    raise
+                # the library raised inside a call the scenario makes unguarded because it must always succeed
+                # (typically toJson() of a live object): the state it reached is not even observable
+                site = exc_site(e)
+                R["violation"] = Violation(self.prop, site[0], site[1], "exception:%s" % type(e).__name__,
+                                           "%s.%s raised %s(%s) in an operation that must always succeed (observation of a live "
+                                           "aggregator)" % (site[0], site[1], type(e).__name__, str(e)[:200])).to_json()
             R["digest"] = w.digest()
             R["steps"] = w.nsteps
             R["states"] = len(w.state_hashes)
